@@ -36,6 +36,7 @@ type CacheDeco struct {
 	Fired     bool
 	// gate: if non-nil every Modify parks here until released
 	Gate func(ctx context.Context, call CacheCall)
+	PruneCreated, PruneApplied int
 }
 
 var ErrCacheInjected = fmt.Errorf("verif: injected cache failure")
@@ -106,6 +107,27 @@ func (d *CacheDeco) Modify(ctx context.Context, name string, opts *cache.Opts, d
 		g(ctx, call)
 	}
 	return d.Client.Modify(ctx, name, opts, dels, upds)
+}
+
+func (d *CacheDeco) CreatePruneID(ctx context.Context, name string, force bool) (string, error) {
+	d.mu.Lock()
+	d.PruneCreated++
+	d.mu.Unlock()
+	return d.Client.CreatePruneID(ctx, name, force)
+}
+
+func (d *CacheDeco) ApplyPrune(ctx context.Context, name, id string) error {
+	err := d.Client.ApplyPrune(ctx, name, id)
+	d.mu.Lock()
+	d.PruneApplied++
+	d.mu.Unlock()
+	return err
+}
+
+func (d *CacheDeco) PruneCounts() (int, int) {
+	d.mu.Lock()
+	defer d.mu.Unlock()
+	return d.PruneCreated, d.PruneApplied
 }
 
 func (d *CacheDeco) Read(ctx context.Context, name string, opts *cache.Opts, paths [][]string, period time.Duration) []*cache.Update {
